@@ -338,17 +338,40 @@ func run(c Case) (pbt.Outcome, error) {
 	// nothing beyond the expected datagrams
 	time.Sleep(300 * time.Microsecond)
 	if len(dead) > 0 && !errs.Failed() {
-		must := 0
-		for _, m := range flushed {
-			if m.ok {
-				must++
-			}
-		}
 		for si, s := range sinks {
 			if dead[si] {
 				continue
 			}
-			s.WaitAll(expected + must)
+			// wait until every message whose Flush returned nil is there (messages whose Flush failed may
+			// arrive as well, so counting datagrams is not enough), patiently: see udpsink.WaitAll
+			allThere := func() bool {
+				got := s.Datagrams()
+				if len(got) < expected {
+					return false
+				}
+				fi := 0
+				for _, d := range got[expected:] {
+					for fi < len(flushed) && !bytes.Equal(flushed[fi].data, d) {
+						if flushed[fi].ok {
+							return false
+						}
+						fi++
+					}
+					if fi == len(flushed) {
+						return true // a foreign datagram: let the judgement below report it
+					}
+					fi++
+				}
+				for ; fi < len(flushed); fi++ {
+					if flushed[fi].ok {
+						return false
+					}
+				}
+				return true
+			}
+			for deadline := time.Now().Add(30 * time.Second); !allThere() && time.Now().Before(deadline); {
+				time.Sleep(200 * time.Microsecond)
+			}
 			time.Sleep(300 * time.Microsecond)
 			got := s.Datagrams()
 			if len(got) < expected {
